@@ -45,7 +45,7 @@ try:
 finally:
     shutil.rmtree(scratch, ignore_errors=True)
 ok = bool(base) and "stable_missing=0" in base[0] and demo_wt.returncode == 1 and demo_repo.returncode == 0
-meta = {"property": pid, "name": name, "confirmed": ok, "baseline_on_worktree": base[0] if base else None,
+meta = {"breaks_property": pid, "name": name, "confirmed": ok, "baseline_on_worktree": base[0] if base else None,
         "demo_exit_with_change": demo_wt.returncode, "demo_exit_unchanged": demo_repo.returncode,
         "ran": ["tools/baseline.py <worktree>", "demo.py <worktree>", "demo.py /repo", "./check <id> --tier quick with VERIF_REPO=<scratch clone + patch.diff>"],
         "check_results_quick": results}
